@@ -51,6 +51,7 @@ PROPS = {
             {"profile": "updatesmall", "n_quick": 0, "n_thorough": 0, "nontrivial": "update", "exhaustive": True},
             {"profile": "updatecrash", "n_quick": 250, "n_thorough": 4000, "nontrivial": "update"},
             {"profile": "cliupd", "kind": "cli", "n_quick": 25, "n_thorough": 400, "nontrivial": "update"},
+            {"profile": "climulti", "kind": "cli", "n_quick": 40, "n_thorough": 400, "nontrivial": "any"},
         ],
         "observable": "for every interruption point k (scripted driver panic at its k-th request, all k of the uninterrupted run): bytes of every file of the tree at every database request (snapshots taken from inside the mock) and after the run, leftover paths, status; oracle on the implementation alone: every original file holds its old or its complete new content at every snapshot and after the interruption; completion: no crash, no debris, exactly one final newline",
         "exhaustive": True,
@@ -122,7 +123,9 @@ PROPS = {
     "C01": {
         "runs": [{"profile": "c01", "n_quick": 20000, "n_thorough": 500000},
                  {"profile": "c17lib", "n_quick": 300, "n_thorough": 10000, "nontrivial": "any"},
-                 {"profile": "c02", "n_quick": 3000, "n_thorough": 60000}],
+                 {"profile": "c02", "n_quick": 3000, "n_thorough": 60000},
+                 # verdicts through the CLI's engine wrapper (error texts as the CLI sees them)
+                 {"profile": "climulti", "kind": "cli", "n_quick": 40, "n_thorough": 400, "nontrivial": "any"}],
         "observable": "verdict, failure kind and the reported actual/err payload of Runner::run_multi on a one-record script",
         "explanation": "random: every expectation form x answer family (exact / whitespace-relaid / value changed / line removed, added, swapped / wrong kind / wrong types) x file-level sort, result mode, threshold, strict|default column check",
     },
